@@ -18,7 +18,10 @@ import (
 	"google.golang.org/protobuf/encoding/protojson"
 	"google.golang.org/protobuf/proto"
 	"google.golang.org/protobuf/types/descriptorpb"
+	"google.golang.org/protobuf/types/known/durationpb"
+	"google.golang.org/protobuf/types/known/timestamppb"
 	"google.golang.org/protobuf/types/known/typepb"
+	"google.golang.org/protobuf/types/known/wrapperspb"
 
 	"verif/harness/internal/hx"
 )
@@ -49,7 +52,22 @@ func jprobes() []jprobe {
 			return &LegacyV1{A: i32(-7), S: str("lég\"acy:  x"), R: []int64{1, -1, 1 << 53}, B: []byte{0, 255}}
 		},
 			func() interface{} { return &LegacyV1{} }, "", "", ""},
+		// a v1-era message with well-known-type fields (JSON: a string, a string, a bare number, bare booleans)
+		{"LegacyV1WKT", "googlev1", func() interface{} {
+			return &LegacyV1WKT{T: &timestamppb.Timestamp{Seconds: 1600000000, Nanos: 5000}, D: &durationpb.Duration{Seconds: -3, Nanos: -500000000},
+				W: &wrapperspb.Int64Value{Value: 1 << 60}, N: str("n:  x"), L: []*wrapperspb.BoolValue{{Value: true}, {}}}
+		}, func() interface{} { return &LegacyV1WKT{} }, "", "", ""},
+		// a Google V2 message nested far deeper than any fixed small recursion bound
+		{"DescriptorProto-deep", "google", func() interface{} { return deepDescriptor(160) }, func() interface{} { return &descriptorpb.DescriptorProto{} }, "", "", ""},
 	}
+}
+
+func deepDescriptor(depth int) *descriptorpb.DescriptorProto {
+	d := &descriptorpb.DescriptorProto{Name: proto.String(fmt.Sprint("L", depth))}
+	if depth > 1 {
+		d.NestedType = []*descriptorpb.DescriptorProto{deepDescriptor(depth - 1)}
+	}
+	return d
 }
 
 func ownerJSONUnmarshal(owner string, b []byte, m interface{}) error {
